@@ -28,6 +28,7 @@ import (
 	"github.com/IrineSistiana/mosdns/v5/coremain"
 	"github.com/IrineSistiana/mosdns/v5/pkg/pool"
 	"github.com/IrineSistiana/mosdns/v5/pkg/query_context"
+	"github.com/IrineSistiana/mosdns/v5/pkg/verifpoint"
 	"github.com/IrineSistiana/mosdns/v5/plugin/executable/sequence"
 	"github.com/miekg/dns"
 	"go.uber.org/zap"
@@ -126,10 +127,14 @@ func (f *fallback) doFallback(ctx context.Context, qCtx *query_context.Context) 
 		r := qCtx.R()
 		if err != nil || r == nil {
 			close(primFailed)
+			verifpoint.At("fallback.primary.failed_signalled", qCtx.Id())
 			respChan <- nil
+			verifpoint.At("fallback.primary.queued", qCtx.Id())
 		} else {
 			close(primDone)
+			verifpoint.At("fallback.primary.signalled", qCtx.Id())
 			respChan <- r
+			verifpoint.At("fallback.primary.queued", qCtx.Id())
 		}
 	}()
 
@@ -141,9 +146,12 @@ func (f *fallback) doFallback(ctx context.Context, qCtx *query_context.Context) 
 		if !f.alwaysStandby { // not always standby, wait here.
 			select {
 			case <-primDone: // primary is done, no need to exec this.
+				verifpoint.At("fallback.secondary.wait.prim_done", qCtxS.Id())
 				return
 			case <-primFailed: // primary failed
+				verifpoint.At("fallback.secondary.wait.prim_failed", qCtxS.Id())
 			case <-timer.C: // timed out
+				verifpoint.At("fallback.secondary.wait.timer", qCtxS.Id())
 			}
 		}
 
@@ -154,20 +162,27 @@ func (f *fallback) doFallback(ctx context.Context, qCtx *query_context.Context) 
 		if err != nil {
 			f.logger.Warn("secondary error", qCtx.InfoField(), zap.Error(err))
 			respChan <- nil
+			verifpoint.At("fallback.secondary.queued", qCtx.Id())
 			return
 		}
 
 		r := qCtx.R()
 		// always standby is enabled. Wait until secondary resp is needed.
 		if f.alwaysStandby && r != nil {
+			verifpoint.At("fallback.secondary.standby", qCtx.Id())
 			select {
 			case <-ctx.Done():
+				verifpoint.At("fallback.secondary.wake.ctx", qCtx.Id())
 			case <-primDone:
+				verifpoint.At("fallback.secondary.wake.prim_done", qCtx.Id())
 			case <-primFailed: // only send secondary result when primary is failed.
+				verifpoint.At("fallback.secondary.wake.prim_failed", qCtx.Id())
 			case <-timer.C: // or timed out.
+				verifpoint.At("fallback.secondary.wake.timer", qCtx.Id())
 			}
 		}
 		respChan <- r
+		verifpoint.At("fallback.secondary.queued", qCtx.Id())
 	}()
 
 	for i := 0; i < 2; i++ {
